@@ -340,6 +340,7 @@ unsigned long SSA::locate(uchar *pattern, uint m, size_t **occs) {
     while (i <= ep) {
       j = i;
       dist = 0;
+      c = 0; // forget the symbol that ended the previous walk
 
       while (!sampled->access(j)) {
         c = bwt->access(j, rank_tmp);
